@@ -24,7 +24,8 @@ REQUIRED_THEOREMS = ['CfVerif.C10.' + n for n in (
     'src_repaired', 'gen_retry_args', 'gen_patterns', 'gen_size_check', 'gen_check_for_answers',
     'retries_until_answered', 'retry_fires', 'retries_at_timeout', 'retries_at_t0_plus_kT', 'no_retry_after_answer',
     'longest_prefix_only', 'nothing_on_closed_link', 'no_cross_session_tx', 'reliable_link_no_retry',
-    'reliable_links_no_timers', 'driver_needs_resending', 'gen_link_read_once', 'gen_forget_order', 'gen_check_better', 'gen_deferred_link_error', 'driver_error_inside_send', 'live_no_retry_after_answer_counterexample',
+    'reliable_links_no_timers', 'driver_needs_resending', 'gen_link_read_once', 'gen_forget_order', 'gen_check_better', 'gen_deferred_link_error', 'driver_error_inside_send', 'after_callbacks_nothing',
+    'retries_until_answered_reentrant', 'no_cross_session_tx_reentrant', 'late_forget_counterexample', 'live_no_retry_after_answer_counterexample',
     'live_no_cross_session_tx_counterexample', 'live_retries_at_timeout_counterexample')]
 TRUSTED = ['harness/corr/c10.py: the path analysis of send_packet (conditions -> Boolean functions over six atoms), the extraction of '
            'close_link/_link_error_cb/open_link flags, and the correspondence harness',
@@ -38,7 +39,10 @@ ASSUMPTIONS = ['atomic steps: a send_packet critical section, one _check_for_ans
                'requests whose pattern is re-registered by a later request with the identical pattern are superseded (their retry chain '
                'stops); the retried-until-answered theorem excludes such continuations explicitly (QuietRun)',
                'open_link: only `self.link = <new link object>` and the clearing of pending timers are modelled; connection set-up traffic is '
-               'ordinary send events',
+               'ordinary send events between openLink and openEnd',
+               'application callbacks that call back into the library (open_link / send_packet / close_link from inside connection_failed, '
+               'disconnected, connection_lost, disconnected_link_error) are the events between linkError..linkErrorEnd / closeRest..closeEnd; '
+               'connection_requested runs before open_link does anything and is an ordinary preceding event',
                'timer punctuality is a hypothesis of the closed form t0 + k*T only; all other theorems hold for arbitrarily late timers']
 
 CF = 'cflib/crazyflie/__init__.py'
@@ -619,7 +623,12 @@ class Real:
         # no dispatcher thread: the harness delivers packets itself through cf.packet_received.call (as the thread does)
         self.cf.incoming = _NoThread()
         # connection setup traffic (platform/TOC requests) is not part of this property
-        self.cf.platform.fetch_platform_informations = lambda cb: None
+        # ... but it is the place where open_link, with the new link installed, hands control to other code
+        self.cf.platform.fetch_platform_informations = lambda cb: self._slot('setup')
+        # the application's callbacks: scripted steps that call back into the library run from inside them
+        self.slot_hook = {}
+        for caller in (self.cf.connection_failed, self.cf.disconnected, self.cf.connection_lost, self.cf.disconnected_link_error):
+            caller.add_callback(lambda *a: self._slot('app'))
         real_commander = self.cf.commander
         outer = self
 
@@ -646,6 +655,11 @@ class Real:
         self.cf.packet_sent.add_callback(packet_sent)
         self.reset()
 
+    def _slot(self, kind):
+        hook = self.slot_hook.pop(kind, None)      # one shot: the first callback of the operation in progress
+        if hook:
+            hook()
+
     def restore(self):
         self.cfm.Timer = self.real_timer
         self.crtp.get_link_driver = self.real_get
@@ -666,6 +680,7 @@ class Real:
         self.seen_tx = 0
         self.seen_timers = 0
         self.error_cb = None
+        self.slot_hook = {}
 
     # -- observation
     def delta(self):
@@ -708,6 +723,8 @@ class Real:
                 if self.cf.link is not None:
                     self.cf.link.fail_next = False
             return rep if self.mid is None or rep.startswith('err') else self.mid + ' | ' + rep
+        if k in ('open', 'lerr', 'close'):
+            raise AssertionError('composite step: use do_multi')
         try:
             if k == 'open':
                 def get_link_driver(uri, stats_cb=None, error_cb=None):
@@ -760,26 +777,82 @@ class Real:
             return self.err(e)
         return self.delta()
 
-    def close(self, between):
-        """close_link() with the steps `between` (of other threads) run after the set-point went out; returns the replies
-        for close1, the steps in between, close2"""
+    def do_multi(self, op):
+        """one scripted step incl. the composite ones; returns the reply lines (see `op_lines`)
+          ('close', between[, nested])   close_link(): close1, steps of OTHER threads after the set-point went out, close2,
+                                         steps run from inside the `disconnected` callback, closeend
+          ('lerr'[, nested])             the driver's error callback: lerr, steps run from inside the first application callback
+                                         it calls (connection_failed / disconnected / disconnected_link_error), lerrend
+          ('open', nr[, nested])         open_link(): open, steps run where open_link starts the connection set-up on the new link, openend"""
+        k = op[0]
+        if k not in ('close', 'lerr', 'open'):
+            return [self.do(op)]
         out = []
+        nested = list(op[2]) if len(op) > 2 else (list(op[1]) if k == 'lerr' and len(op) > 1 else [])
+        fired = []
 
-        def hook():
+        def slot():
+            fired.append(1)
             out.append(self.delta())
-            for op in between:
-                out.append(self.do(op))
-        if self.cf.link is not None:
-            self.after_setpoint = hook
+            for o in nested:
+                out.extend(self.do_multi(o))
+
+        def call(fn):
+            try:
+                fn()
+                if not fired:       # the operation did not reach its callback slot: the nested steps run right after it
+                    slot()
+                out.append(self.delta())
+            except Exception as e:
+                if not fired:
+                    out.append(self.err(e))
+                out.append(self.err(e))
+        if k == 'close':
+            def setpoint_hook():
+                out.append(self.delta())
+                for o in op[1]:
+                    out.extend(self.do_multi(o))
+                self.slot_hook['app'] = slot        # only now: the steps in between may run application callbacks of their own
+            if self.cf.link is not None:
+                self.after_setpoint = setpoint_hook
+            else:
+                setpoint_hook()
+            call(self.cf.close_link)
+            self.after_setpoint = None
+        elif k == 'lerr':
+            self.slot_hook['app'] = slot
+            call(lambda: (self.error_cb or self.cf._link_error_cb)('scripted link error'))
         else:
-            hook()
-        try:
-            self.cf.close_link()
-            out.append(self.delta())
-        except Exception as e:
-            out.append(self.err(e))
-        self.after_setpoint = None
+            def get_link_driver(uri, stats_cb=None, error_cb=None):
+                self.error_cb = error_cb
+                link = FakeLink(self.links, bool(op[1]), self.log, error_cb)
+                self.links += 1
+                return link
+            self.crtp.get_link_driver = get_link_driver
+            self.slot_hook['setup'] = slot
+            try:
+                call(lambda: self.cf.open_link('fake://0'))
+            finally:
+                self.crtp.get_link_driver = self.real_get
+        self.slot_hook.pop('app', None)
+        self.slot_hook.pop('setup', None)
         return out
+
+    def close(self, between):
+        return self.do_multi(('close', between))[:-1]
+
+
+def op_lines(op):
+    """the driver lines of one scripted step (composite steps: see Real.do_multi)"""
+    k = op[0]
+    if k == 'close':
+        nested = op[2] if len(op) > 2 else []
+        return ['close1'] + [l for o in op[1] for l in op_lines(o)] + ['close2'] + [l for o in nested for l in op_lines(o)] + ['closeend']
+    if k == 'lerr':
+        return ['lerr'] + [l for o in (op[1] if len(op) > 1 else []) for l in op_lines(o)] + ['lerrend']
+    if k == 'open':
+        return ['open %d' % op[1]] + [l for o in (op[2] if len(op) > 2 else []) for l in op_lines(o)] + ['openend']
+    return [op_line(op)]
 
 
 def op_line(op):
@@ -797,12 +870,8 @@ def run_real(script):
     r.reset()
     lines, replies = [], []
     for op in script:
-        if op[0] == 'close':
-            lines += ['close1'] + [op_line(o) for o in op[1]] + ['close2']
-            replies += r.close(op[1])
-        else:
-            lines.append(op_line(op))
-            replies.append(r.do(op))
+        lines += op_lines(op)
+        replies += r.do_multi(op)
     return lines, replies
 
 
@@ -826,12 +895,10 @@ class Script:
 
     def do(self, op):
         self.ops.append(op)
-        if op[0] == 'close':
-            self.lines += ['close1'] + [op_line(o) for o in op[1]] + ['close2']
-            self.replies += self.real.close(op[1])
-        else:
-            self.lines.append(op_line(op))
-            self.replies.append(self.real.do(op))
+        ls, rs = op_lines(op), self.real.do_multi(op)
+        assert len(ls) == len(rs), (op, ls, rs)
+        self.lines += ls
+        self.replies += rs
         return self.replies[-1]
 
     def send(self, header, expected, tmo=200, size=None, explicit=False, pid=None):
@@ -918,8 +985,13 @@ def rand_step(rng, sc, allow_close=True):
             return ('adv', dls[0] if rng.random() < 0.8 else rng.choice(dls))
         return ('adv', rng.choice([0, 1, 100, 199, 200, 1000]))
     if r < 0.90:
-        return ('open', rng.choice([1, 1, 1, 0]))
+        nr = rng.choice([1, 1, 1, 0])
+        if allow_close and rng.random() < 0.3:      # connection set-up traffic etc. from inside open_link
+            return ('open', nr, rand_nested(rng, sc, reconnect=False))
+        return ('open', nr)
     if r < 0.93:
+        if allow_close and rng.random() < 0.6:      # the application reacts from inside connection_lost / connection_failed
+            return ('lerr', rand_nested(rng, sc))
         return ('lerr',)
     if r < 0.95:
         return ('setnr', rng.choice([0, 1]))
@@ -928,8 +1000,22 @@ def rand_step(rng, sc, allow_close=True):
         if sc.link_open() and rng.random() < 0.4:
             for _ in range(rng.choice([1, 1, 2, 3])):
                 between.append(rand_step(rng, sc, allow_close=False))
+        if rng.random() < 0.4:                      # ... or from inside `disconnected`
+            return ('close', between, rand_nested(rng, sc))
         return ('close', between)
     return ('adv', 0)
+
+
+def rand_nested(rng, sc, reconnect=True):
+    """what an application callback does: typically reconnect and ask for something at once; any non-composite step may follow"""
+    out = []
+    if reconnect and rng.random() < 0.85:
+        out.append(('open', rng.choice([1, 1, 1, 0])))
+    for _ in range(rng.choice([0, 1, 1, 2, 3])):
+        out.append(rand_step(rng, sc, allow_close=False))
+    if reconnect and rng.random() < 0.15:
+        out.append(('close', []))
+    return [o for o in out if o[0] not in ('lerr',) or len(o) == 1]
 
 
 def gen_random(rng, n, cfg='src'):
@@ -996,6 +1082,24 @@ def gen_families(rng, thorough):
                            [('adv', 1000)] + [('expire', i) for i in range(6)] + [('run', i) for i in range(6)]
                     out.append(('order:%s:nr%d:t%d' % (name, nr, tmo),
                                 [('open', nr), ('send', 1, H, 2, (3, 7), tmo, tmo != 200)] + fold_close(order) + tail))
+    # the application calls back into the library from inside the callbacks of a link error / close_link:
+    # reconnect + immediate request (same or another pattern), at every position relative to the old timer's steps
+    for nr in (1, 0):
+        for tmo in (200, 1000):
+            for tname, mk in (('lerr', lambda n: ('lerr', n)), ('close', lambda n: ('close', [], n))):
+                for vi, nested in enumerate((
+                        [('open', nr), ('send', 2, H, 2, (3, 7), tmo, True)],
+                        [('open', nr), ('send', 2, H, 2, (3, 8), tmo, True), ('send', 3, H, 1, (3,), 200, False)],
+                        [('open', nr), ('send', 2, H, 2, (3, 7), tmo, True), ('recv', H, (3, 7, 1))],
+                        [('send', 2, H, 2, (3, 8), tmo, True), ('open', nr), ('send', 1, H, 2, (3, 7), tmo, tmo != 200)],
+                        [('open', nr), ('send', 2, H, 2, (3, 8), tmo, True), ('close', [])],
+                        [('open', nr, [('send', 2, H, 2, (3, 8), tmo, True)]), ('send', 3, H, 2, (3, 9), tmo, True)])):
+                    old_timer = [('adv', tmo), ('expire', 0), ('run', 0)]
+                    for order in interleavings(old_timer, [mk(nested)]):
+                        tail = [('adv', tmo)] + [('expire', i) for i in range(5)] + [('run', i) for i in range(5)] + \
+                               [('adv', 1000)] + [('expire', i) for i in range(8)] + [('run', i) for i in range(8)]
+                        out.append(('order:reentrant-%s:nr%d:t%d' % (tname, nr, tmo),
+                                    [('open', nr), ('send', 1, H, 2, (3, 7), tmo, tmo != 200)] + order + tail))
     # sets of simultaneously pending patterns with shared prefixes
     pats = [(1,), (1, 2), (1, 2, 3), (1, 3), (2,)]
     datas = [(1,), (1, 2), (1, 2, 3), (1, 2, 3, 1), (1, 3), (1, 1), (2, 2), (3,), ()]
@@ -1011,13 +1115,19 @@ def gen_families(rng, thorough):
 
 
 def gen_exhaustive(depth):
-    """EVERY sequence of `depth` steps over a 16-step alphabet after two prefix-sharing requests were sent"""
+    """EVERY sequence of `depth` steps over an 18-step alphabet after two prefix-sharing requests were sent"""
     import itertools
     H = HEADERS[0]
     alphabet = [('adv', 200), ('adv', 800), ('expire', 0), ('expire', 1), ('expire', 2), ('run', 0), ('run', 1), ('run', 2),
                 ('recv', H, (1, 9)), ('recv', H, (1, 2, 9)), ('close', []), ('open', 1), ('lerr',),
-                ('send', 3, H, 1, (1,), 200, False), ('setnr', 0), ('runf', 0)]
+                ('send', 3, H, 1, (1,), 200, False), ('setnr', 0), ('runf', 0),
+                ('lerr', [('open', 1), ('send', 4, H, 2, (1, 3), 200, False)]),
+                ('close', [], [('open', 1), ('send', 5, H, 1, (1,), 200, False)])]
     prefix = [('open', 1), ('send', 1, H, 1, (1,), 200, False), ('send', 2, H, 2, (1, 2), 1000, True)]
+    if depth > 3:       # thorough: all 3-step sequences over the full alphabet + all `depth`-step ones over its core
+        for seq in itertools.product(alphabet, repeat=3):
+            yield 'exhaustive', prefix + list(seq)
+        alphabet = [a for a in alphabet if a not in (('adv', 800), ('expire', 2), ('run', 2), ('setnr', 0), ('runf', 0), ('open', 1))]
     for seq in itertools.product(alphabet, repeat=depth):
         yield 'exhaustive', prefix + list(seq)
 
@@ -1091,6 +1201,24 @@ def _vsched_scenario(kind, tmo_ms):
                 holder['err']('scripted link error')
                 cf.open_link('fake://0')
                 vsched.time.sleep(T + T / 2)
+            elif kind == 'reentrant-lerr':
+                # the application reconnects from inside connection_failed / connection_lost and asks again at once
+                pk2 = CRTPPacket()
+                pk2.set_header(5, 1)
+                pk2.data = bytes([3, 7])
+                pk2._c10_id = 2
+                once = []
+
+                def reconnect(*a):
+                    if not once:
+                        once.append(1)
+                        cf.open_link('fake://0')
+                        cf.send_packet(pk2, expected_reply=(3, 7), timeout=T)
+                for caller in (cf.connection_failed, cf.connection_lost, cf.disconnected_link_error):
+                    caller.add_callback(reconnect)
+                vsched.time.sleep(T)
+                holder['err']('scripted link error')
+                vsched.time.sleep(T + T / 2)
             cf.close_link()
         finally:
             cflib.crtp.get_link_driver = real_get
@@ -1132,7 +1260,7 @@ def model_logs(lines, replies, upto):
 def vsched_accept(ctx, model_by_family):
     """every transmission log the real threads produce must be one the model produces for some ordering of the same steps"""
     thorough = ctx.tier == 'thorough'
-    for kind in ('reply', 'close-reopen', 'error-reopen'):
+    for kind in ('reply', 'close-reopen', 'error-reopen', 'reentrant-lerr'):
         for tmo in ((200, 1000) if thorough else (200,)):
             accepted = model_by_family.get('order:%s:nr1:t%d' % (kind, tmo), set())
             outs, n, complete, problems = vsched_outcomes(kind, tmo, 2, 4000 if thorough else 250)
@@ -1155,8 +1283,8 @@ RULE = ('cases = scripts of send / reply / timer-expiry / timer-callback / time 
         'link-error / open / needs_resending-change steps run on the real Crazyflie object (recording fake link, manually fired '
         'Timer) and on the Lean model; systematic families enumerate EVERY interleaving of the timer thread\'s steps with a reply, a '
         'close+reopen, a link error+reopen, a re-registration of the pattern, for needs_resending on/off and both timeouts, and all '
-        'non-empty subsets of five prefix-sharing patterns x nine replies; EVERY sequence of 3 (thorough: 4) steps over a 16-step '
-        'alphabet after two prefix-sharing requests; random scripts follow the real timer states; real dispatcher and Timer threads '
+        'non-empty subsets of five prefix-sharing patterns x nine replies; EVERY sequence of 3 (thorough: 4) steps over an 18-step '
+        'alphabet (incl. reconnect + request from inside the link-error / close callbacks) after two prefix-sharing requests; random scripts follow the real timer states; real dispatcher and Timer threads '
         'under the virtual-time scheduler (depth-first over the schedules with <= 2 preemptions) must produce transmission logs the '
         'model produces for some ordering; '
         'non-trivial = distinct script that transmits at least once')
@@ -1341,15 +1469,20 @@ def load_corpus():
     import json
     d = os.path.join(os.path.dirname(os.path.dirname(os.path.abspath(__file__))), 'corpus', 'c10')
     res = []
+    def conv(o):
+        """JSON op -> op tuple; a list of lists starting with a string is a list of nested ops, any other list a tuple of ints"""
+        out = []
+        for x in o:
+            if isinstance(x, list) and (not x or isinstance(x[0], list)) and o[0] in ('close', 'lerr', 'open'):
+                out.append([conv(y) for y in x])
+            elif isinstance(x, list):
+                out.append(tuple(x))
+            else:
+                out.append(x)
+        return tuple(out)
     for f in sorted(glob.glob(os.path.join(d, '*.json'))):
         j = json.load(open(f))
-        ops = []
-        for o in j['script']:
-            if o[0] == 'close':
-                ops.append(('close', [tuple(tuple(x) if isinstance(x, list) else x for x in b) for b in o[1]]))
-            else:
-                ops.append(tuple(tuple(x) if isinstance(x, list) else x for x in o))
-        res.append((os.path.basename(f), ops))
+        res.append((os.path.basename(f), [conv(o) for o in j['script']]))
     return res
 
 
@@ -1415,14 +1548,19 @@ def search(ctx):
         Real.get().restore()
     ctx.count('search:scripts', n)
     # real dispatcher / timer threads under the virtual-time scheduler (depth-first over the schedules, <= 2 preemptions)
-    for kind in ('reply', 'close-reopen', 'error-reopen'):
+    for kind in ('reply', 'close-reopen', 'error-reopen', 'reentrant-lerr'):
         outs, runs, complete, problems = vsched_outcomes(kind, 200, 2, 3000 if ctx.tier == 'thorough' else 250)
         ctx.count('search:vsched-schedules', runs)
         for log, (cnt, choices) in sorted(outs.items()):
             inp = {'family': 'vsched:' + kind, 'timeout_ms': 200, 'schedule': choices[:120], 'log(time,link,packet,closed)': log}
-            if any(t[1] != 0 and t[2] == 1 for t in log) and 'cross-session-tx' not in seen:
+            if any((t[1] != 0 and t[2] == 1) or (t[1] != 1 and t[2] == 2) for t in log) and 'cross-session-tx' not in seen:
                 seen.add('cross-session-tx')
                 ctx.witness('cross-session-tx', 'a request of an earlier session was transmitted on the link of a later session', inp)
+            if kind == 'reentrant-lerr' and any(t[2] == 2 for t in log) and not any(t[2] == 2 and t[0] > min(u[0] for u in log if u[2] == 2) for t in log) \
+                    and 'missing-retry' not in seen:
+                seen.add('missing-retry')
+                ctx.witness('missing-retry', 'a request sent on the link that the application re-opened from inside the link-error callback is '
+                            'not retransmitted one timeout later although that link stays open and nothing was received', inp)
             if any(t[3] for t in log) and 'tx-during-link-error' not in seen:
                 seen.add('tx-during-link-error')
                 ctx.witness('tx-during-link-error', 'a packet was handed to a link object that the link-error callback of another thread '
